@@ -227,7 +227,28 @@ fn gen_quartic(r: &mut Rng) -> IntOfLogPoly4 {
 
 fn real(m: &mut Mon, r: &mut Rng, f: &[f64], g: &[f64]) {
     let pf = Piecewise { segments: f.iter().map(|e| Segment { end: *e, poly: gen_quartic(r) }).collect::<Vec<_>>() };
-    let pg = Piecewise { segments: g.iter().map(|e| Segment { end: *e, poly: gen_quartic(r) }).collect::<Vec<_>>() };
+    // right-hand pieces are partly correlated with left-hand pieces (identical, same coefficient block with
+    // different k / u, one field different): fast paths in the piece-level operator only show on such pairs
+    let pg = Piecewise {
+        segments: g
+            .iter()
+            .map(|e| {
+                let fresh = gen_quartic(r);
+                let poly = if r.chance(0.4) {
+                    let a = pf.segments[r.usize(0, pf.segments.len() - 1)].poly;
+                    match r.below(4) {
+                        0 => a,
+                        1 => IntOfLogPoly4 { k: fresh.k, coeffs: a.coeffs, u: fresh.u },
+                        2 => IntOfLogPoly4 { k: a.k, coeffs: fresh.coeffs, u: a.u },
+                        _ => IntOfLogPoly4 { k: a.k, coeffs: a.coeffs, u: fresh.u },
+                    }
+                } else {
+                    fresh
+                };
+                Segment { end: *e, poly }
+            })
+            .collect::<Vec<_>>(),
+    };
     m.case(hash_bits(14, pw_nums(&pf).iter().chain(pw_nums(&pg).iter()).map(|e| e.to_bits())));
     m.count("pairs_real:IntOfLogPoly4");
     for op in [b'+', b'-'] {
